@@ -274,3 +274,17 @@ LOOPS = {
     ("graphs/smg.py", "StereoMolGraph.remove_atom", 0): SMG_remove_atom_0,
     ("graphs/smg.py", "StereoMolGraph.remove_atom", 1): SMG_remove_atom_1,
 }
+
+
+# comprehensions summarised on a generic element (vf/pyvc/summarise.py): (file, Class.method, ordinal of the comprehension in the method)
+SUMMARISE = {
+    ("graphs/mg.py", "MolGraph.subgraph", 0),   # {atom: self._atom_attrs[atom].copy() for atom in atoms}
+    ("graphs/mg.py", "MolGraph.subgraph", 1),   # {bond: attrs.copy() for bond, attrs in self._bond_attrs.items() if new_atoms.issuperset(bond)}
+    ("graphs/mg.py", "MolGraph.subgraph", 2),   # {atom: {n for n in self._neighbors[atom] if n in new_atoms} for atom in new_atoms}
+    ("graphs/mg.py", "MolGraph.subgraph", 3),   # (the nested set comprehension; handled with its parent)
+    ("graphs/mg.py", "MolGraph.relabel_atoms", 0),
+    ("graphs/mg.py", "MolGraph.relabel_atoms", 1),
+    ("graphs/mg.py", "MolGraph.relabel_atoms", 2),
+    ("graphs/mg.py", "MolGraph.relabel_atoms", 3),
+    ("graphs/mg.py", "MolGraph.relabel_atoms", 4),
+}
